@@ -10,6 +10,7 @@ mod c14;
 mod c15a;
 mod c16;
 mod c16b;
+mod c18r;
 mod c19a;
 mod pipe;
 
@@ -24,8 +25,10 @@ fn main() {
         "C08r" => c08r::run(&args),
         "C14" => c14::run(&args),
         "C15a" => c15a::run(&args),
+        "C15w" => c16::run_c15w(&args),
         "C16" => c16::run(&args),
         "C17a" => c16::run_c17a(&args),
+        "C18r" => c18r::run(&args),
         "C19a" => c19a::run(&args),
         "C11pipe" => c01::run(&args, "c11/"),
         "C12pipe" => c01::run(&args, "c12/"),
